@@ -7,3 +7,5 @@ git -C /repo apply "$patch" || exit 2
 (cd /repo && GOFLAGS=-mod=mod GOPROXY=off GOSUMDB=off go build ./... 2>&1 | head -3)
 ./check $id --tier $tier 2>&1 | grep -v "^KNOWN-FINDING" | tail -2 | cut -c1-300
 git -C /repo checkout -- .
+# evidence/ and the regenerated tables now describe the patched tree: put the committed ones back
+git -C /verif checkout -- evidence lean/LayerModel/Gen 2>/dev/null
